@@ -141,6 +141,22 @@ let dispatch cmd =
              | Err (Crash CIndex) -> "{\"ok\":[" ^ String.concat "," (List.rev acc) ^ "]}"
              | Err e -> jerr e) in go O [] in
          jl (fun raw -> jl (one raw) [d.d_mtu; d.d_tcp_req; d.d_tcp_resp; d.d_http_req; d.d_http_resp]) qs)
+  | "history" -> let files = nlist (fun () -> nlist ntext) in
+      let rec nat_to_int = function O -> 0 | S n -> 1 + nat_to_int n in
+      jl (fun (r, obs) -> "[" ^ jres (fun _ -> "true") r ^ "," ^ jl (fun n -> string_of_int (nat_to_int n)) obs ^ "]") (history loader0 files)
+  | "api_history" ->
+      let ops = nlist (fun () -> match ni () with
+        | 0 -> Load (nlist ntext)
+        | 1 -> let md = nz () in let syn = nz () in let v = nz () in let b = ntext () in FpTcp (md, syn, v, b)
+        | 2 -> let v = nz () in let b = ntext () in FpMtu (v, b)
+        | 3 -> FpHttp (ntext ())
+        | _ -> Other) in
+      let jout = function
+        | OLoadOk -> "{\"load\":true}" | OErr e -> jerr e | OUnframed -> "\"unframed\"" | ONone -> "null"
+        | OTcp (l, t, d) -> "{\"tcp\":[" ^ jopt ji l ^ "," ^ jopt jmtype t ^ "," ^ ji d ^ "]}"
+        | OMtu (m, l) -> "{\"mtu\":[" ^ ji m ^ "," ^ jopt ji l ^ "]}"
+        | OHttp (l, d) -> "{\"http\":[" ^ jopt ji l ^ "," ^ jb d ^ "]}" in
+      jl jout (snd (run_ops empty_db ops))
   | _ -> failwith ("unknown command " ^ cmd)
 
 let () =
